@@ -19,6 +19,11 @@ fn main() {
     panics::install();
     watchdog::start(120, "property check");
     let seed: u64 = std::env::var("VERIF_SEED").ok().and_then(|s| s.trim().parse::<i128>().ok()).map(|v| v as u64).unwrap_or(0);
+    if args[2] == "--net-child" && id == "C06" {
+        let tier = if args.get(3).map(|s| s.as_str()) == Some("thorough") { Tier::Thorough } else { Tier::Quick };
+        let seed: u64 = args.get(4).and_then(|s| s.parse().ok()).unwrap_or(0);
+        std::process::exit(vh::net::c06n::child_main(tier, seed, &args[5], &args[6]));
+    }
     if args[2] == "--replay" {
         let path = args.get(3).unwrap_or_else(|| usage());
         let txt = std::fs::read_to_string(path).unwrap_or_else(|e| { eprintln!("cannot read {path}: {e}"); std::process::exit(2) });
@@ -33,6 +38,13 @@ fn main() {
         _ => usage(),
     };
     let mut ctx = Ctx::new(id, tier, seed, level_of(id));
+    // regression tier: saved reproducers of repaired findings are replayed first; a fixed
+    // finding suppresses nothing, so a reproducer that fails again is a violation
+    let regress = regressions(id);
+    if regress.1 > 0 {
+        std::process::exit(1);
+    }
+    ctx.extra.insert("regression_replays".into(), serde_json::json!(regress.0));
     match id {
         "C01" => { vh::router::props::c01(&mut ctx); if !ctx.failed() { vh::net::c07s::run(&mut ctx, false, true); } }
         "C02" => vh::router::props::c02(&mut ctx),
@@ -42,7 +54,7 @@ fn main() {
         "C03" => vh::net::c03::run(&mut ctx),
         "C04" => vh::net::c04::run(&mut ctx),
         "C05" => vh::pure::c05::run(&mut ctx),
-        "C06" => vh::pure::c06::run(&mut ctx),
+        "C06" => { vh::pure::c06::run(&mut ctx); if !ctx.failed() { vh::net::c06n::run_in_child(&mut ctx); } }
         "C07" => { vh::pure::c07::run_grammar(&mut ctx); if !ctx.failed() { vh::net::c07s::run(&mut ctx, true, true); } c07_meta(&mut ctx) }
         "C11" => { vh::router::props::c11_router(&mut ctx); if !ctx.failed() { vh::net::c11::run_net(&mut ctx); } c11_meta(&mut ctx) }
         "C12" => vh::net::c12::run(&mut ctx),
@@ -65,6 +77,7 @@ fn replay(id: &'static str, leg: &str, case: &serde_json::Value) -> i32 {
     if (id == "C07" || id == "C01") && (leg == "server-names" || leg == "isolation") { return vh::net::c07s::replay(id, leg, case); }
     if id == "C07" && leg == "grammar" { return vh::pure::c07::replay(id, case); }
     if id == "C14" { return vh::pure::c14::replay(id, case); }
+    if id == "C06" && leg == "e2e-subscriber" { return vh::net::c06n::replay(id, case); }
     if id == "C06" { return vh::pure::c06::replay(id, case); }
     if id == "C11" && leg == "stream-scripts" { return vh::net::c11::replay(id, case); }
     if id == "C17" { return vh::net::c17::replay(id, case); }
@@ -86,4 +99,26 @@ fn c11_meta(ctx: &mut Ctx) {
 fn c07_meta(ctx: &mut Ctx) {
     ctx.rule = "(a) strings for TopicName::try_from / (namespace, topic) pairs for create(): valid names with lengths concentrated on 2,3,63,64,65, one-edit invalid neighbours (illegal ASCII character anywhere, missing leading '/', third component, empty component, trailing newline), reserved-word placements (selium, seliumX, Selium, xselium, in the topic part), multi-byte first characters and multi-byte characters elsewhere, arbitrary Unicode; oracle = hand-written reference grammar (exact in both directions for ASCII; structural violations must be rejected for any Unicode; non-ASCII word characters are a gray zone), no panic, display round-trip, components, create() == try_from() == is_valid(); (b) the same (namespace, topic) pairs put on the wire with _create_unchecked in all four registration kinds against the real server: Error(INVALID_TOPIC_NAME) iff the reference rejects, else Ok; (c) 2-3 distinct valid names from confusable families (dash/underscore moved across the slash, swapped parts, case differences, shared prefixes/suffixes) used concurrently on one server with 1-2 publishers and subscribers each and tagged traffic: every subscriber receives exactly its own topic's messages, per publisher in order, nothing foreign; non-trivial = a string within one edit of the accept/reject boundary or containing a multi-byte character, a rejected wire name, or an isolation case".into();
     ctx.assumptions.push("non-ASCII word characters: either verdict accepted (the regex \\w is Unicode-aware, the statement says 'letters, digits' without settling scripts)".into());
+}
+
+/// returns (replayed file names, failures)
+fn regressions(id: &'static str) -> (Vec<String>, usize) {
+    let dir = std::path::Path::new(vh::core::VERIF_DIR).join("findings");
+    let mut names = vec![];
+    let mut fails = 0;
+    let Ok(rd) = std::fs::read_dir(&dir) else { return (names, 0) };
+    let mut files: Vec<_> = rd.filter_map(|e| e.ok()).map(|e| e.path()).filter(|p| p.extension().map_or(false, |x| x == "json")).collect();
+    files.sort();
+    for f in files {
+        let Ok(txt) = std::fs::read_to_string(&f) else { continue };
+        let Ok(v) = serde_json::from_str::<serde_json::Value>(&txt) else { continue };
+        if v["property"].as_str() != Some(id) { continue; }
+        let leg = v["leg"].as_str().unwrap_or("").to_string();
+        std::env::set_var("VERIF_REPLAY_PATH", f.display().to_string());
+        let rc = replay(id, &leg, &v["case"]);
+        std::env::remove_var("VERIF_REPLAY_PATH");
+        names.push(f.file_name().unwrap().to_string_lossy().into_owned());
+        if rc == 1 { fails += 1; }
+    }
+    (names, fails)
 }
